@@ -93,6 +93,7 @@ type RunCfg struct {
 	Relabel    bool    `json:"part_relabeller"`
 	NoisePct   int     `json:"noise_pct"`
 	Filters    bool    `json:"message_class_filters"`
+	EvForger   bool    `json:"evidence_forger"`
 }
 
 // Sim is one run.
@@ -132,6 +133,7 @@ type Sim struct {
 	blocksByH  map[uint64][]*knownBlock
 	forged     map[string]string
 	bogusParts map[int]int
+	learnedSaved map[int]int
 	filters    []*classFilter
 	healAt     time.Duration
 
@@ -403,6 +405,10 @@ func (s *Sim) deliver(m *Msg) {
 		s.res.Probe("peer-reconnected")
 	}
 	s.trace("deliver %d->%d %s", m.Src, m.Dst, m.Desc)
+	s.mon.noteDelivery(n, m)
+	if m.Ch == 0x38 {
+		s.mon.noteEvidenceDelivery(n, m)
+	}
 	func() {
 		defer func() {
 			if r := recover(); r != nil {
@@ -467,6 +473,7 @@ func (s *Sim) loop(goal func() bool, maxSim time.Duration) {
 		}
 		s.maybePartition()
 		s.maybeFilter()
+		s.learnAll()
 		s.gossip()
 		s.adversaryStep()
 		now := s.now()
